@@ -214,7 +214,7 @@ func childParse(args []string) int {
 		fmt.Fprintln(os.Stderr, "progress:", err)
 		return 2
 	}
-	debug.SetMaxStack(256 << 20) // runaway recursion dies as a fatal stack overflow quickly
+	debug.SetMaxStack(64 << 20) // runaway recursion dies as a fatal stack overflow quickly
 	emit := func(r Record) {
 		b, _ := json.Marshal(r)
 		out.Write(append(b, '\n'))
